@@ -36,11 +36,32 @@ Qed.
 Lemma runes_of_ok : forall s, exists rs, runes_of s = ROk rs.
 Proof. intros s. apply runes_loop_ok. lia. Qed.
 
+(* the stack can hold the frames the nesting limit admits: limit + 1 (the frame that reports the
+   error exists too); an unbounded stack (None) is always fine *)
+Definition stack_ok (maxd stack : option nat) : Prop :=
+  forall s, stack = Some s -> exists m, maxd = Some m /\ m + 1 <= s.
+Definition lvl_inv (maxd : option nat) (lvl : nat) : Prop := forall m, maxd = Some m -> lvl <= m.
+
+Lemma enter_ok : forall maxd stack lvl, stack_ok maxd stack -> lvl_inv maxd lvl ->
+  over stack (S lvl) = false.
+Proof.
+  intros maxd stack lvl Hs Hi. destruct stack as [s|]; [|reflexivity].
+  destruct (Hs s eq_refl) as [m [Hm Hle]]. specialize (Hi m Hm). simpl. apply Nat.ltb_ge. lia.
+Qed.
+Lemma enter_inv : forall maxd lvl, over maxd (S lvl) = false -> lvl_inv maxd (S lvl).
+Proof.
+  intros [m|] lvl H m' E; inversion E; subst. simpl in H. apply Nat.ltb_ge in H. exact H.
+Qed.
+Lemma lvl_inv_0 : forall maxd, lvl_inv maxd 0.
+Proof. intros maxd m _. lia. Qed.
+
 Section LegacyProofs.
   Variables is_space is_letter is_number : N -> bool.
   Variable to_lower : N -> N.
   Variable case_sensitive : bool.
   Variable ftype : bytes -> N.
+  Variables maxd stack : option nat.
+  Hypothesis Hstack : stack_ok maxd stack.
   Variable data : runes.
 
   Notation L := (length data).
@@ -336,9 +357,9 @@ Section LegacyProofs.
       destruct toks; [congruence | simpl; lia].
   Qed.
 
-  Notation bsub := (bsub is_space is_letter is_number to_lower case_sensitive ftype data).
-  Notation bexpr := (bexpr is_space is_letter is_number to_lower case_sensitive ftype data).
-  Notation bloop := (bloop is_space is_letter is_number to_lower case_sensitive ftype data).
+  Notation bsub := (bsub is_space is_letter is_number to_lower case_sensitive ftype maxd stack data).
+  Notation bexpr := (bexpr is_space is_letter is_number to_lower case_sensitive ftype maxd stack data).
+  Notation bloop := (bloop is_space is_letter is_number to_lower case_sensitive ftype maxd stack data).
 
   Lemma eq_fold_nonempty : forall w kw, kw <> [] -> eq_fold_ascii w kw = true -> w <> [].
   Proof. intros w kw Hk H. destruct w; [destruct kw; [congruence | discriminate] | discriminate]. Qed.
@@ -355,22 +376,26 @@ Section LegacyProofs.
      successful parseSubexpr consumes input, every iteration of parseExpr's loop consumes an
      operator and an operand *)
   Lemma parse_all : forall f,
-    (forall d pos lv, pos <= L -> settled pos -> 2 * (L - pos) + 1 <= f ->
-       wp (bsub f d pos lv) (ppost pos)) /\
-    (forall d pos lv, pos <= L -> settled pos -> 2 * (L - pos) + 2 <= f ->
-       wp (bexpr f d pos lv) (ppost pos)) /\
-    (forall d low high pos lv, pos <= L -> settled pos -> 2 * (L - pos) + 2 <= f ->
-       wp (bloop f d low high pos lv) (lpost pos)).
+    (forall d pos lv lvl, pos <= L -> settled pos -> 2 * (L - pos) + 1 <= f -> lvl_inv maxd lvl ->
+       wp (bsub f d pos lv lvl) (ppost pos)) /\
+    (forall d pos lv lvl, pos <= L -> settled pos -> 2 * (L - pos) + 2 <= f -> lvl_inv maxd lvl ->
+       wp (bexpr f d pos lv lvl) (ppost pos)) /\
+    (forall d low high pos lv lvl, pos <= L -> settled pos -> 2 * (L - pos) + 2 <= f ->
+       lvl_inv maxd lvl ->
+       wp (bloop f d low high pos lv lvl) (lpost pos)).
   Proof.
     induction f as [|f [IHs [IHe IHl]]].
     { repeat split; intros; lia. }
     split; [| split].
-    - intros d pos lv Hle Hs Hf. cbn [Legacy.bsub].
+    - intros d pos lv lvl Hle Hs Hf Hinv. cbn [Legacy.bsub]. cbv zeta.
+      rewrite (enter_ok maxd stack lvl Hstack Hinv).
+      destruct (over maxd (S lvl)) eqn:Eo; [exact I|].
+      pose proof (enter_inv _ _ Eo) as Hinv'.
       destruct (eof pos) eqn:E; [exact I|].
       pose proof (eof_false _ E Hle) as Hlt. destruct (cur_ok _ Hlt) as [c [Hc Hn]].
       rewrite Hc. cbn [rbind]. destruct (N.eqb c 40).
       { wpb. wpm (skip_sp_ok (S pos)). intros p1 [Hp1 [Hs1 _]]. wpb.
-        wpm (IHe (S d) p1 lv). intros [[e lv2] p2] [Hp2 Hs2]. simpl in Hp2, Hs2.
+        wpm (IHe (S d) p1 lv (S lvl)). intros [[e lv2] p2] [Hp2 Hs2]. simpl in Hp2, Hs2.
         cbv beta iota.
         destruct (eof p2) eqn:E2; [exact I|].
         assert (Hlt2 : p2 < L) by (apply eof_false; [exact E2 | lia]).
@@ -381,28 +406,28 @@ Section LegacyProofs.
       destruct (eq_fold_ascii name kw_not_r) eqn:En.
       { assert (Hne : name <> []) by (eapply eq_fold_nonempty; [| exact En]; discriminate).
         assert (pos < p1) by (destruct name; [congruence | simpl in Hp1; lia]).
-        wpb. wpm (IHs d p1 lv). intros [[ch lv2] p2] [Hp2 Hs2]. simpl in Hp2, Hs2.
+        wpb. wpm (IHs d p1 lv (S lvl)). intros [[ch lv2] p2] [Hp2 Hs2]. simpl in Hp2, Hs2.
         simpl. split; [lia | exact Hs2]. }
       wpb. eapply wp_mono.
       { apply field_operand_ok; [lia | intros Hn0; rewrite (Hnil Hn0 Hs); exact Hlt]. }
       cbv beta. intros [[k lv2] p2] [Hp2 [Hs2 Hk]]. simpl in Hp2, Hs2, Hk.
       destruct k; [congruence|]. simpl. split; [lia | exact Hs2].
-    - intros d pos lv Hle Hs Hf. cbn [Legacy.bexpr].
-      wpb. wpm (IHs d pos lv). intros [[high lv2] p] [Hp Hs']. simpl in Hp, Hs'.
-      wpm (IHl d None high p lv2). intros x [H1 H2]. split; [lia | exact H2].
-    - intros d low high pos lv Hle Hs Hf. cbn [Legacy.bloop].
+    - intros d pos lv lvl Hle Hs Hf Hinv. cbn [Legacy.bexpr].
+      wpb. wpm (IHs d pos lv lvl). intros [[high lv2] p] [Hp Hs']. simpl in Hp, Hs'.
+      wpm (IHl d None high p lv2 lvl). intros x [H1 H2]. split; [lia | exact H2].
+    - intros d low high pos lv lvl Hle Hs Hf Hinv. cbn [Legacy.bloop].
       wpb. wpm (simple_term_ok pos). intros [op p1] [Hp1 [Hs1 [Hnil _]]].
       cbv zeta.
       destruct (runes_eqb (map to_lower op) kw_and_r) eqn:Ea.
       { assert (Hne : op <> []) by (eapply runes_eqb_nonempty; [| exact Ea]; discriminate).
         assert (pos < p1) by (destruct op; [congruence | simpl in Hp1; lia]).
-        wpb. wpm (IHs d p1 lv). intros [[rgt lv2] p2] [Hp2 Hs2]. simpl in Hp2, Hs2.
-        wpm (IHl d low (AndN high rgt) p2 lv2). intros x [H1 H2]. split; [lia | exact H2]. }
+        wpb. wpm (IHs d p1 lv lvl). intros [[rgt lv2] p2] [Hp2 Hs2]. simpl in Hp2, Hs2.
+        wpm (IHl d low (AndN high rgt) p2 lv2 lvl). intros x [H1 H2]. split; [lia | exact H2]. }
       destruct (runes_eqb (map to_lower op) kw_or_r) eqn:Eo.
       { assert (Hne : op <> []) by (eapply runes_eqb_nonempty; [| exact Eo]; discriminate).
         assert (pos < p1) by (destruct op; [congruence | simpl in Hp1; lia]).
-        wpb. wpm (IHs d p1 lv). intros [[rgt lv2] p2] [Hp2 Hs2]. simpl in Hp2, Hs2.
-        wpm (IHl d (Some (join_or low high)) rgt p2 lv2).
+        wpb. wpm (IHs d p1 lv lvl). intros [[rgt lv2] p2] [Hp2 Hs2]. simpl in Hp2, Hs2.
+        wpm (IHl d (Some (join_or low high)) rgt p2 lv2 lvl).
         intros x [H1 H2]. split; [lia | exact H2]. }
       destruct op; [|exact I].
       simpl in Hp1. destruct (eof p1) eqn:E1.
@@ -418,11 +443,12 @@ Section LegacyProofs.
   Proof. wpm (skip_sp_ok 0). intros p [H1 [H2 _]]. split; [lia | exact H2]. Qed.
 
   Lemma build_ast_ok :
-    wp (build_ast is_space is_letter is_number to_lower case_sensitive ftype data) (fun _ => True).
+    wp (build_ast is_space is_letter is_number to_lower case_sensitive ftype maxd stack data) (fun _ => True).
   Proof.
     unfold build_ast. wpb. eapply wp_mono; [exact settled_skip0 | cbv beta].
     intros p0 [Hp0 Hs0]. wpb. destruct (parse_all (pfuel data)) as [_ [He _]].
-    wpm (He 0 p0 []). intros [[e lv] p] _. exact I.
+    eapply wp_mono; [ apply (He 0 p0 [] 0); [lia | assumption | unfold pfuel; lia | apply lvl_inv_0] | cbv beta ].
+    intros [[e lv] p] _. exact I.
   Qed.
 
   Lemma agg_filter_ok :
@@ -441,16 +467,55 @@ Section LegacyProofs.
 End LegacyProofs.
 
 (* ---------------------------------------------------------------- the theorems *)
+Lemma legacy_parse_total_gen :
+  forall (is_space is_letter is_number : N -> bool) (to_lower : N -> N) (case_sensitive : bool)
+         (ftype : bytes -> N) (maxd stack : option nat) (q : bytes), stack_ok maxd stack ->
+    legacy_parse is_space is_letter is_number to_lower case_sensitive ftype maxd stack q = RErr \/
+    exists a, legacy_parse is_space is_letter is_number to_lower case_sensitive ftype maxd stack q
+              = ROk a.
+Proof.
+  intros until q. intros Hst. unfold legacy_parse. destruct (runes_of_ok q) as [rs Hrs].
+  rewrite Hrs. simpl.
+  pose proof (build_ast_ok is_space is_letter is_number to_lower case_sensitive ftype maxd stack
+                           Hst rs) as H.
+  destruct (build_ast is_space is_letter is_number to_lower case_sensitive ftype maxd stack rs)
+    as [[e lv]| | |]; simpl in *; try contradiction; eauto.
+Qed.
+
+Lemma stack_ok_none : forall maxd, stack_ok maxd None.
+Proof. intros maxd s H. discriminate. Qed.
+Lemma stack_ok_some : forall m s, m + 1 <= s -> stack_ok (Some m) (Some s).
+Proof. intros m s H s' E. inversion E; subst. eauto. Qed.
+
+(* unbounded stack: any nesting limit, also none (the `_v0` code) *)
 Lemma legacy_parse_total :
   forall (is_space is_letter is_number : N -> bool) (to_lower : N -> N) (case_sensitive : bool)
-         (ftype : bytes -> N) (q : bytes),
-    legacy_parse is_space is_letter is_number to_lower case_sensitive ftype q = RErr \/
-    exists a, legacy_parse is_space is_letter is_number to_lower case_sensitive ftype q = ROk a.
+         (ftype : bytes -> N) (maxd : option nat) (q : bytes),
+    legacy_parse is_space is_letter is_number to_lower case_sensitive ftype maxd None q = RErr \/
+    exists a, legacy_parse is_space is_letter is_number to_lower case_sensitive ftype maxd None q
+              = ROk a.
+Proof. intros. apply legacy_parse_total_gen. apply stack_ok_none. Qed.
+
+(* a stack of limit + 1 frames suffices, whatever the input *)
+Lemma legacy_nesting_bounded :
+  forall (is_space is_letter is_number : N -> bool) (to_lower : N -> N) (case_sensitive : bool)
+         (ftype : bytes -> N) (m s : nat) (q : bytes), m + 1 <= s ->
+    legacy_parse is_space is_letter is_number to_lower case_sensitive ftype (Some m) (Some s) q = RErr \/
+    exists a, legacy_parse is_space is_letter is_number to_lower case_sensitive ftype (Some m) (Some s) q
+              = ROk a.
+Proof. intros. apply legacy_parse_total_gen. apply stack_ok_some. assumption. Qed.
+
+(* a sub-expression entered with `limit` frames already on the stack is rejected at once *)
+Lemma bsub_rejects :
+  forall (is_space is_letter is_number : N -> bool) (to_lower : N -> N) (case_sensitive : bool)
+         (ftype : bytes -> N) (m : nat) (stack : option nat) data f d pos lv lvl,
+    m <= lvl -> over stack (S lvl) = false ->
+    bsub is_space is_letter is_number to_lower case_sensitive ftype (Some m) stack data (S f) d pos lv lvl
+    = RErr.
 Proof.
-  intros. unfold legacy_parse. destruct (runes_of_ok q) as [rs Hrs]. rewrite Hrs. simpl.
-  pose proof (build_ast_ok is_space is_letter is_number to_lower case_sensitive ftype rs) as H.
-  destruct (build_ast is_space is_letter is_number to_lower case_sensitive ftype rs)
-    as [[e lv]| | |]; simpl in *; try contradiction; eauto.
+  intros. cbn [bsub]. cbv zeta. rewrite H0.
+  assert (E : over (Some m) (S lvl) = true) by (simpl; apply Nat.ltb_lt; lia).
+  rewrite E. reflexivity.
 Qed.
 
 Lemma legacy_agg_total :
